@@ -29,7 +29,9 @@ Init == \E i \in DOMAIN Topos : \E a \in Packets(i) :
           /\ st = "fly" /\ hist = <<>> /\ phase = "fwd"
 
 T0 == Insts[inst].T
-R == Step(T0, UpMap(T0, atk.down), atk.now, pkt, at, ifin)
+\* link state in force at this AS step (a schedule models links failing / recovering while the packet travels)
+DownNow == DownAt(atk, Len(hist) + 1)
+R == Step(T0, UpMap(T0, DownNow), atk.now, pkt, at, ifin)
 
 \* what kind of processing the current hop field asks for (only meaningful for well-formed pointers)
 Kind ==
@@ -40,7 +42,7 @@ Kind ==
       peering == seg.peer /\ ((k = 1 /\ lastS) \/ (k = 2 /\ j = 1))
   IN IF peering THEN "peer" ELSE IF lastS /\ pkt.ch # tot THEN "xover" ELSE "plain"
 
-Record(r) == Append(hist, [as |-> at, ifin |-> ifin, ci |-> pkt.ci, ch |-> pkt.ch, k |-> r.k, class |-> r.class])
+Record(r) == Append(hist, [as |-> at, ifin |-> ifin, ci |-> pkt.ci, ch |-> pkt.ch, k |-> r.k, class |-> r.class, down |-> DownNow])
 
 Move(kind) == /\ st = "fly" /\ R.k = "fwd" /\ Kind = kind
               /\ pkt' = R.pkt /\ at' = R.as /\ ifin' = R.if /\ hist' = Record(R)
@@ -83,5 +85,5 @@ ValleyFreeInv == (st = "deliver" /\ phase = "fwd") => ValleyFreeWalk(T0, atk, [W
 LinksExistAndUp ==
   \A n \in 1..(Len(hist) - 1) :
      LET l == LinkAt(T0, hist[n + 1].as, hist[n + 1].ifin) IN
-     l # 0 /\ l \notin atk.down /\ FarAs(T0, l, hist[n + 1].as) = hist[n].as
+     l # 0 /\ l \notin hist[n].down /\ FarAs(T0, l, hist[n + 1].as) = hist[n].as
 =============================================================================
